@@ -322,7 +322,7 @@ func allowedResume(l *hist.Layout, exp []hist.ExpTx, a int, start hist.Pos, star
 			if l.H.Units[u].Kind != hist.UHeartbeat {
 				ok[l.UnitStart[u]] = true
 			}
-			if u < last && l.H.Units[u].Kind == hist.URotate {
+			if u < last && (l.H.Units[u].Kind == hist.URotate || l.H.Units[u].Kind == hist.UFileEnd) {
 				ok[hist.Pos{File: l.H.Units[u].NextFile, Off: 4}] = true
 			}
 		} else if n := len(l.UnitEnd); n > 0 {
